@@ -1,6 +1,8 @@
 """C14 - shifts scale by powers of two: lossless in expand mode, arithmetic otherwise."""
 from . import ops, fresh
 
+from . import routes, fresh, flags, sizes, conv, dtype, carriers, funcs, ops, strings, pipeline, widths
+
 EXPLANATION = (
     "R1 on every path of __rshift__/__lshift__ the stored value is the operand's own codes shifted with >> resp. << (nothing else), stored raw, and the shift count "
     "k and the result's n_frac satisfy (self.n_frac -+ k) - n_frac' == -+n as terms, i.e. the result is x*2^(-+n) for every n including 0; R2 growth: the format grows "
@@ -15,3 +17,5 @@ TRUSTED = ["CPython ast", "fxlint term normaliser"]
 def run(ck):
     ops.shift_rules(ck, "C14.R1", "C14.R2", "C14.R3")
     fresh.returned_objects_fresh(ck, "C20.R1")
+    fresh.constructor_state(ck, "C20.R2")            # results and operands are built by the constructor: own status record, own final configuration
+    routes.who_writes_codes(ck, "C02.R1")             # shifted codes reach the buffer through set_val (clamped or wrapped), or by the in-place >>
